@@ -99,3 +99,10 @@ func verifPrfPlusSpec(prf hash.Hash, seed []byte, n int) []byte {
 // verifRandIntDrawn: x is exactly a value returned by a successful crypto/rand.Int call
 // made during the execution under verification (static obligation).
 func verifRandIntDrawn(x *big.Int) bool { return x != nil }
+
+// Frame condition of a lemma (engine: every write between Begin and End goes to an
+// object allocated in between or to an allowed one); no-ops when executed.
+func verifFrameBegin() int                      { return 0 }
+func verifFrameAllow(mark int, obj interface{}) {}
+func verifFrameAllowKind(mark int, kind string) {}
+func verifFrameEnd(mark int, label string)      {}
